@@ -4,12 +4,26 @@ A case is: an instance, a filter configuration, a CREATION SCRIPT (which observe
 order, through which constructor path), a first history h1 (partial or complete), a reset, a second history h2.
 World A runs all of it; world B (the twin) is freshly constructed with the same creation script and runs only
 h2. After the reset and after every dispatch of h2 the publicly visible state of dispatcher, every subscribed
-observer and (in env mode) the environment's returns must coincide."""
+observer and (in env mode) the environment's returns must coincide (the model-free ORACLE).
+
+TIE (non-env cases): the same creation script + episodes + reset + h2 is translated into the model sessions the
+theorems of coq/properties/C12b.v are about, and world A is compared with the model after the creation script, after
+every reset and after EVERY dispatch of h2:
+  * feature observers (command 1101, coq/model/CmdC11.v, FeatureObservers.v): the constructor steps `feat`,
+    `unsched`, `composite` that precede the graph updater (objects created later never influence earlier ones; a
+    script with such steps after the updater is tied on that prefix only and counted `tie_skipped`), compared: the
+    whole subscriber system restricted to those objects and the dependencies they created (every feature vector,
+    earliest_start_times, remaining_ops_per_*, deques, composite matrices and column names) and the schedule rows;
+  * residual graph updater (command 1701, coq/model/CmdC17.v, Residual.v): the dependency-relevant observers
+    created before it (`unsched`, RemainingOperations, IsCompleted) as `pre`, its options and builder, compared:
+    removed_nodes, the edge set, flags and counters of its IsCompletedObserver.
+History / reward observers are not part of those model worlds (their reset theorem is C12.v's; they do not interact
+with the others) and are judged by the oracle only; environment cases are oracle-only (`tie_skipped_env`)."""
 from __future__ import annotations
 
 import json
 
-from . import common, gen, session
+from . import c11, c17, common, gen, session
 from .framework import Check, Failure
 
 FEATURE_TYPES = ["is_ready", "earliest_start_time", "duration", "is_scheduled", "position_in_job",
@@ -71,7 +85,10 @@ class World:
 
         d = self.dispatcher
         fts = [FeatureType.OPERATIONS, FeatureType.MACHINES, FeatureType.JOBS]
+        self.nfeat_before = []      # feature-class subscribers that exist before each step (for the tie)
+        fclasses = c11._classes()   # pylint: disable=protected-access
         for st in steps:
+            self.nfeat_before.append(sum(1 for x in d.subscribers if type(x) in fclasses))
             if st[0] == "feat":
                 o = feature_observer_factory(FEATURE_TYPES[st[1]], dispatcher=d, feature_types=[fts[i] for i in st[2]])
             elif st[0] == "unsched":
@@ -117,6 +134,78 @@ def run_history(world, hist):
         r = world.do(j, p, m)
         outs.append([r, world.state()])
     return outs
+
+
+FEATISH = ("feat", "unsched", "composite")
+
+
+def tie_plan(steps):
+    """(index of the updater step or None, number of leading steps the feature session covers)"""
+    rgu_at = next((i for i, st in enumerate(steps) if st[0] == "rgu"), None)
+    return rgu_at, (len(steps) if rgu_at is None else rgu_at)
+
+
+class TieView:
+    """What the model sessions show, read off world A with the encoders of harness/c11.py and c17.py."""
+
+    def __init__(self, world, steps):
+        from job_shop_lib.dispatching.feature_observers import FeatureType
+
+        self.world = world
+        self.dispatcher = world.dispatcher
+        self.classes = c11._classes()   # pylint: disable=protected-access
+        self.fts = [FeatureType.OPERATIONS, FeatureType.MACHINES, FeatureType.JOBS]
+        self.objs = []
+        rgu_at, upto = tie_plan(steps)
+        self.updater = world.objs[rgu_at] if rgu_at is not None else None
+        self.refresh()
+        # feature-class subscribers created by the steps before the updater (in subscription = creation order)
+        self.nfeat = world.nfeat_before[rgu_at] if rgu_at is not None else len(self.objs)
+        # creation-step index -> index in that list (the model's object index)
+        self.fmap = {i: self.index_of(world.objs[i]) for i, st in enumerate(steps[:upto]) if st[0] == "feat"}
+
+    index_of = c11.Impl.index_of
+    enc_obj = c11.Impl.enc_obj
+
+    def refresh(self):
+        self.objs = [x for x in self.dispatcher.subscribers if type(x) in self.classes]
+
+    def snap(self):
+        self.refresh()
+        d = self.dispatcher
+        out = {"f": [self.enc_obj(o) for o in self.objs[:self.nfeat]],
+               "rows": [[session.enc_sop(x) for x in row] for row in d.schedule.schedule]}
+        if self.updater is not None:
+            out["u"] = c17.enc_state(self.updater)[:3]
+        return {k: common.norm(v) for k, v in out.items()}
+
+
+def feature_events(steps, fmap):
+    """the creation steps the feature session (command 1101) can express, as its events"""
+    _, upto = tie_plan(steps)
+    evs = []
+    for i, st in enumerate(steps[:upto]):
+        if st[0] == "feat":
+            evs.append([2, st[1], [int(t in st[2]) for t in range(3)], []])
+        elif st[0] == "unsched":
+            evs.append([2, 8, [1, 1, 1], []])     # create-or-get: a second one is refused by the model, no change
+        elif st[0] == "composite":
+            evs.append([2, 7, [1, 1, 1], [[fmap[str(c)] for c in st[1]]]])
+    return evs
+
+
+def updater_pre(steps):
+    """the dependency-relevant observers created before the updater, in command 1701's `pre` format"""
+    rgu_at, _ = tie_plan(steps)
+    pre = []
+    for st in steps[:rgu_at]:
+        if st[0] == "unsched":
+            pre.append([0])
+        elif st[0] == "feat" and st[1] == 5:
+            pre.append([1, int(1 in st[2]), int(2 in st[2])])
+        elif st[0] == "feat" and st[1] == 6:
+            pre.append([2, int(0 in st[2]), int(1 in st[2]), int(2 in st[2])])
+    return pre
 
 
 def gen_history(rng, spec, complete_prob=0.5):
@@ -199,29 +288,146 @@ class C12(Check):
                 # EarliestStartTimeObserver cannot be built for this instance: property C11's finding, not C12's
                 return {"skipped": "earliest-start observer not constructible"}
             raise
+        view = TieView(a, case["steps"]) if case["env"] is None else None
+        snaps = [view.snap()] if view else []          # after the creation script
         for h in case["h1"]:
             run_history(a, h)
             ra = a.reset()
+            if view:
+                snaps.append(view.snap())               # after every reset
         sa0 = a.state()
         b = World(case["spec"], case["filters"], case["steps"], case["env"])
         rb = b.reset() if case["env"] is not None else None
         sb0 = b.state()
         if case["env"] is None:
             ra = None
-        outs_a = run_history(a, case["h2"])
+        outs_a = []
+        for j, p, m in case["h2"]:
+            r = a.do(j, p, m)
+            outs_a.append([r, a.state()])
+            if view:
+                snaps.append(view.snap())               # after every dispatch of h2
         outs_b = run_history(b, case["h2"])
-        return {"reset_obs": [json.dumps(ra, sort_keys=True), json.dumps(rb, sort_keys=True)],
-                "s0": [json.dumps(sa0, sort_keys=True, default=str), json.dumps(sb0, sort_keys=True, default=str)],
-                "steps": [[json.dumps(x, sort_keys=True, default=str), json.dumps(y, sort_keys=True, default=str)]
-                          for x, y in zip(outs_a, outs_b)]}
+        obs = {"reset_obs": [json.dumps(ra, sort_keys=True), json.dumps(rb, sort_keys=True)],
+               "s0": [json.dumps(sa0, sort_keys=True, default=str), json.dumps(sb0, sort_keys=True, default=str)],
+               "steps": [[json.dumps(x, sort_keys=True, default=str), json.dumps(y, sort_keys=True, default=str)]
+                         for x, y in zip(outs_a, outs_b)]}
+        if view:
+            obs["tie"] = {"snaps": snaps, "nfeat": view.nfeat, "fmap": {str(k): v for k, v in view.fmap.items()}}
+        return obs
+
+    @staticmethod
+    def session_events(case):
+        """dispatches and resets of the case in the order they happen, and the indices (into that list) after
+        which world A was snapshot: every reset, every dispatch of h2"""
+        evs, marks = [], []
+        for h in case["h1"]:
+            evs += [[0, j, p, m] for j, p, m in h]
+            evs.append([1])
+            marks.append(len(evs) - 1)
+        for j, p, m in case["h2"]:
+            evs.append([0, j, p, m])
+            marks.append(len(evs) - 1)
+        return evs, marks
 
     def model_requests(self, case, obs):
-        return []
+        if "skipped" in obs or "tie" not in obs:
+            return []
+        tie = obs["tie"]
+        steps = case["steps"]
+        rgu_at, _ = tie_plan(steps)
+        evs, _ = self.session_events(case)
+        reqs = []
+        if tie["nfeat"] > 0:
+            cre = feature_events(steps, tie["fmap"])
+            reqs.append((1101, [case["spec"], case["filters"],
+                                cre + [[0, e[1], e[2], [e[3]]] if e[0] == 0 else [1] for e in evs]]))
+        if rgu_at is not None:
+            st = steps[rgu_at]
+            reqs.append((1701, [case["spec"], case["filters"], c17.ENV_BUILDER[st[1]], updater_pre(steps),
+                                st[2], st[3], evs]))
+        return reqs
+
+    def judge_tie(self, case, obs, outs):
+        fails = []
+        tie = obs["tie"]
+        steps = case["steps"]
+        rgu_at, upto = tie_plan(steps)
+        evs, marks = self.session_events(case)
+        snaps = tie["snaps"]
+        outs = list(outs)
+        labels = ["after the creation script"] + [
+            ("after the reset" if evs[k] == [1] else f"after dispatch {evs[k][1:]} of h2") + f" (event #{k})"
+            for k in marks]
+        if any(st[0] in FEATISH for st in steps[upto:]):
+            self.note("tie_skipped")                      # feature observers created after the updater: prefix only
+        if tie["nfeat"] > 0:
+            self.note("tie_features")
+            model = outs.pop(0)
+            ncre = len(feature_events(steps, tie["fmap"]))
+            for lab, snap, k in zip(labels, snaps, [ncre - 1] + [ncre + k for k in marks]):
+                if k < 0 or k >= len(model):
+                    fails.append(Failure("tie", "features:session-length", f"{lab}: the model session has no event {k}"))
+                    break
+                out, (msubs, mobjs), mrows = model[k]
+                if k >= ncre and out[0] != 0:
+                    fails.append(Failure("tie", "features:event-rejected", f"{lab}: the model rejected event {k}",
+                                         observed=out))
+                    break
+                if msubs != list(range(len(mobjs))):
+                    fails.append(Failure("tie", "features:subscription-order",
+                                         f"{lab}: model subscribers {msubs} are not in creation order"))
+                    break
+                if snap["rows"] != mrows:
+                    fails.append(Failure("tie", "features:rows", f"{lab}: schedule rows differ", expected=mrows,
+                                         observed=snap["rows"]))
+                    break
+                if snap["f"] != mobjs:
+                    detail = f"{lab}: feature observers differ between implementation and model"
+                    if len(snap["f"]) != len(mobjs):
+                        detail += f"; {len(snap['f'])} objects vs {len(mobjs)} in the model"
+                    for i, (x, y) in enumerate(zip(snap["f"], mobjs)):
+                        if x != y:
+                            detail += f"; object {i} ({c11.KINDS[x[0]]}): impl {x[1:]} model {y[1:]}"
+                            break
+                    fails.append(Failure("tie", "features:impl-vs-model", detail))
+                    break
+        elif any(st[0] in FEATISH for st in steps[:upto]):
+            fails.append(Failure("tie", "features:none-subscribed", "feature constructor steps left no subscriber"))
+        if rgu_at is not None:
+            self.note("tie_updater")
+            model = outs.pop(0)
+            if model[0] != 1:
+                return fails + [Failure("tie", "updater:builder-raises", "the model's builder raised")]
+            _, m0, msteps = model
+            for lab, snap, k in zip(labels, snaps, [-1] + marks):
+                if k >= len(msteps):
+                    fails.append(Failure("tie", "updater:session-length", f"{lab}: the model session has no event {k}"))
+                    break
+                mstate = m0 if k < 0 else msteps[k][1]
+                if k >= 0 and msteps[k][0] == 0:
+                    fails.append(Failure("tie", "updater:event-rejected", f"{lab}: the model rejected event {k}"))
+                    break
+                for i, what in enumerate(("removed_nodes", "edges", "is-completed-observer")):
+                    if snap["u"][i] != mstate[i]:
+                        fails.append(Failure("tie", "updater:" + what, f"{lab}: {what} differ between implementation "
+                                             f"and model", expected=mstate[i], observed=snap["u"][i]))
+                        break
+                else:
+                    continue
+                break
+        if tie["nfeat"] == 0 and rgu_at is None:
+            self.note("tie_nothing_to_tie")               # only history / reward observers (C12.v's theorem)
+        return fails
 
     def judge(self, case, obs, outs):
         fails = []
         if "skipped" in obs:
             return fails
+        if "tie" in obs:
+            fails += self.judge_tie(case, obs, outs)
+        else:
+            self.note("tie_skipped_env")
         if obs["reset_obs"][0] != obs["reset_obs"][1]:
             fails.append(Failure("oracle", "env-reset-observation",
                                  "env.reset() after an episode returns a different observation than env.reset() of a "
